@@ -206,7 +206,7 @@ def _shallow(I, x):
     return None
 
 
-def heap_snapshot(I, env, exempt=()):
+def heap_snapshot(I, env, exempt=(), roots=None):
     """shallow states of the mutable objects the loop body can reach: the locals of the
     function (and enclosing functions), objects of repository classes and the containers
     hanging off them.  Objects of harness / model classes are boundaries (recorders, the
@@ -216,7 +216,7 @@ def heap_snapshot(I, env, exempt=()):
 
     seen = {}
     names = {}
-    stack = []
+    stack = list(roots) if roots is not None else []
     e = env
     while e is not None and e.func is not None:
         for k, v in e.vars.items():
@@ -224,7 +224,7 @@ def heap_snapshot(I, env, exempt=()):
         e = e.parent
     skip = {id(deref(x)) for x in exempt}
     while stack:
-        x, path = stack.pop()
+        x, path = stack.pop(0)  # breadth first: an object is named by a shortest path
         x = deref(x)
         if isinstance(x, BoundMethod):
             stack.append((x.self_, path))
@@ -274,10 +274,21 @@ def heap_snapshot(I, env, exempt=()):
 def frame_violations(I, snap):
     seen, names = snap
     out = []
+    from .objects import ObjV
+
     for oid, (x, sh) in seen.items():
-        if _shallow(I, x) != sh:
+        now = _shallow(I, x)
+        if now == sh:
+            continue
+        if isinstance(x, ObjV):
+            # name the attributes that were added, removed or rebound
+            a, b = dict(sh), dict(now)
+            for k in list(a) + [k for k in b if k not in a]:
+                if a.get(k, "<absent>") != b.get(k, "<absent>"):
+                    out.append(f"{names[oid]}.{k}")
+        else:
             out.append(names[oid])
-    return sorted(out)
+    return sorted(set(out))
 
 
 def _hook(I, fn, args):
